@@ -43,9 +43,9 @@ func (mgr *Manager) newInstance(owner key.TargetID, mod info.Modifier, renew int
 		count:                    mod.Count,
 		maxCount:                 mod.MaxCount,
 		countAddWhenStack:        mod.CountAddWhenStack,
-		stats:                    mod.Stats,
-		debuffRES:                mod.DebuffRES,
-		weakness:                 mod.Weakness,
+		stats:                    copyMap(mod.Stats),
+		debuffRES:                copyMap(mod.DebuffRES),
+		weakness:                 copyMap(mod.Weakness),
 		manager:                  mgr,
 		listeners:                config.Listeners,
 		statusType:               config.StatusType,
@@ -99,6 +99,20 @@ func (mgr *Manager) newInstance(owner key.TargetID, mod info.Modifier, renew int
 	}
 
 	return mi
+}
+
+// copyMap gives the instance its own copy of a map of the modifier description, so that
+// neither the caller nor another instance created from the same description shares it.
+// A nil map stays nil (newInstance then allocates an empty one).
+func copyMap[M ~map[K]V, K comparable, V any](m M) M {
+	if m == nil {
+		return nil
+	}
+	out := make(M, len(m))
+	for k, v := range m {
+		out[k] = v
+	}
+	return out
 }
 
 // Add a property to this modifier instance. Will cause all modifiers attached to the owner of this
